@@ -219,6 +219,27 @@ def mutate(rng, m, op=None):
     return m, op
 
 
+ODD_NAMES = ["x", "q", "w", "p", "in", "c", "items", "a", "b", "n", "k", "z", "sel", "first", "all", "Error", "Cause", "Result", "r",
+             "a.b", "my state", "it's", "\u00e9t\u00e9", "$x", "x[0]", "*", "a,b", "States", "Branches", "Next", "Type", "StartAt",
+             "Parameters", "v", "fn", "t", "out", "res", "err", "e", "\"quoted\"", "a-b", "0", "End", "Iterator", "Choices"]
+
+
+def odd_names(rng, m):
+    """a well-formed machine stays well-formed when states are renamed consistently: names that are also member names
+    of data / templates / the language itself, and names with characters a path syntax could trip over"""
+    m = copy.deepcopy(m)
+    scs = [sc for sc, d in scopes_of(m) if isinstance(sc.get("States"), dict) and sc["States"]]
+    pool = [n for n in ODD_NAMES]
+    rng.shuffle(pool)
+    for sc in scs:
+        for old in list(sc["States"]):
+            if rng.random() < 0.5 and pool:
+                new = pool.pop()
+                if new not in all_names(m):
+                    rename_refs(sc, old, new)
+    return m
+
+
 def has_float(x):
     if isinstance(x, float):
         return True
@@ -507,6 +528,9 @@ def run(chk):
     for i in range(n_base):
         g = machgen.Gen(rng, max_depth=rng.choice([0, 1, 2]))
         cases.append((g.machine(), "wellformed", machgen.gen_input(rng), g.fns))
+    for i in range(n_base // 2):
+        g = machgen.Gen(rng, max_depth=rng.choice([1, 1, 2]))
+        cases.append((odd_names(rng, g.machine()), "odd_names", machgen.gen_input(rng), g.fns))
     for i in range(n_mut):
         g = machgen.Gen(rng, max_depth=rng.choice([0, 1, 1, 2]))
         m = g.machine()
